@@ -140,10 +140,14 @@ def _los_points(draw, shape, nlos):
     """integer coordinates in units of dist/16; pixel i covers [16 i - 8, 16 i + 8]"""
     S_, E_, kinds = [], [], []
     for _ in range(nlos):
-        kind = draw(st.sampled_from(["inside", "inside", "cross", "cross", "long"]))
-        pad = {"inside": 0, "cross": 40, "long": 200}[kind]
+        kind = draw(st.sampled_from(["inside", "inside", "cross", "cross", "long"] + (["corner"] if len(shape) > 1 else [])))
+        pad = {"inside": 0, "cross": 40, "long": 200, "corner": 24}[kind]
         s = [draw(st.integers(-8 - pad, 16 * n - 8 + pad)) for n in shape]
         e = [draw(st.integers(-8 - pad, 16 * n - 8 + pad)) for n in shape]
+        if kind == "corner":
+            # the mid point of the segment is a vertex of the pixel lattice (all cell boundaries meet there)
+            c = [16 * draw(st.integers(0, n)) - 8 for n in shape]
+            e = [2 * cc - ss for cc, ss in zip(c, s)]
         if len(shape) > 1 and draw(st.integers(0, 5)) == 0:
             a = draw(st.integers(0, len(shape) - 1))     # axis-parallel in at least one axis
             e[a] = s[a]
@@ -564,7 +568,7 @@ def varpos_recipes(draw, tier):
         npts = draw(st.integers(1, 5))
         rec["coord"] = [[draw(st.integers(-64, 64)) / 16.0 for _ in shape] for _ in range(npts)]
     else:
-        rec["delta"] = draw(st.sampled_from(["zero", "integer", "fractional", "fractional"]))
+        rec["delta"] = draw(st.sampled_from(["zero", "integer", "integer", "fractional", "fractional"]))
     return rec
 
 
@@ -972,19 +976,20 @@ def mask_recipes(draw, tier):
             rs.append(["U", [draw(st.integers(1, max(1, min(8, rem))))]])
         rem = max(1, rem // int(np.prod(rs[-1][1])))
     n = int(np.prod(_full_shape(rs)))
-    density = draw(st.sampled_from(["none", "sparse", "half", "dense", "all", "free"]))
+    density = draw(st.sampled_from(["none", "sparse", "sparse", "half", "half", "dense", "dense", "all", "free"]))
+    seed = draw(SEED)
     if density == "none":
         flags = [0] * n
     elif density == "all":
         flags = [1] * n
+    elif density == "free":
+        flags = [int(draw(st.booleans())) for _ in range(n)]
     else:
-        p = {"sparse": 1, "half": 4, "dense": 7, "free": None}[density]
-        if p is None:
-            flags = [int(draw(st.booleans())) for _ in range(n)]
-        else:
-            flags = [int(draw(st.integers(0, 7)) < p) for _ in range(n)]
+        # flag pattern derived from the seed in the recipe (hypothesis itself prefers all-zero lists)
+        p = {"sparse": 0.15, "half": 0.5, "dense": 0.85}[density]
+        flags = [int(v) for v in (np.random.default_rng(seed).random(n) < p)]
     return {"dom": rs, "flags": flags, "flag_dtype": draw(st.sampled_from(["bool", "bool", "int", "float"])),
-            "seed": draw(SEED)}
+            "seed": seed}
 
 
 def mask_check(rec):
